@@ -6,4 +6,8 @@ MCPays == {1, 3}
 MCReserves == {1}
 MCAvails == {1, 3}
 MCTraffs == {1, 2}
+MCNone == {}
+\* slow settlement layer: queue of 2, bursts of 1 and 4 credits
+MCSlowBursts == {1, 4}
+MCSlowPays == {3}
 =============================================================================
